@@ -36,6 +36,8 @@ type pingSpec struct {
 	done time.Duration
 }
 
+var c19LastID = -1 // last echo identifier seen on the wire in this process
+
 type pingExtra struct {
 	at   time.Duration
 	kind string // foreign, request-same-id, truncated, duplicate
@@ -136,9 +138,31 @@ func c19Scenario(c *wk.Ctx, idx int64, r *rand.Rand) (nontrivial string, viol bo
 	immediate, dupInside := 0, 0
 	var wg sync.WaitGroup
 	var mu sync.Mutex
+	// identifiers are handed out sequentially: remember the last one seen on the wire (process wide)
+	rec.OnWrite(func(f mon.TxFrame) {
+		d := refdec.Decode(f.Data)
+		if d.Err || (d.PayloadID != refdec.PICMP4 && d.PayloadID != refdec.PICMP6) {
+			return
+		}
+		off := d.OffIP4 + 20
+		if d.OffIP6 != 0 {
+			off = d.OffIP6 + 40
+		}
+		if icmp := f.Data[off:]; icmp[0] == 8 || icmp[0] == 128 {
+			c19LastID = int(icmp[4])<<8 | int(icmp[5])
+		}
+	})
+	rx := newRx()
 	// start the pings one after the other so that an injected send error hits the intended one
 	for _, p := range pings {
 		p := p
+		stale := c19LastID >= 0 && r.Intn(4) == 0
+		if stale {
+			// an echo reply that already carries the identifier the next ping will get is parsed while nobody waits for it
+			// (it is ignored) and stays in the receive buffer ...
+			premature := echoFrame(nic, p, 0, 129, uint16(c19LastID+1), false)
+			c.Guard(attr, func() any { return cs() }, func() { s.Parse(rx.load(premature)) })
+		}
 		if p.sendErr {
 			rec.FailNext(1, mon.ErrInjected)
 		}
@@ -188,7 +212,15 @@ func c19Scenario(c *wk.Ctx, idx int64, r *rand.Rand) (nontrivial string, viol bo
 			mu.Unlock()
 		}()
 		synctest.Wait()
+		if stale {
+			// ... and the next frame in that buffer is a runt: an Ethernet header and nothing else. It is no echo reply
+			runt := refdec.Ether(toMAC(nic.HostMAC), p.dmac, map[bool]uint16{false: 0x0800, true: 0x86dd}[p.v6], 0, nil)
+			c.Guard(attr, func() any { return cs() }, func() { s.Parse(rx.load(runt)) })
+			synctest.Wait()
+			c.Obs("stale_reply_then_runt", 1)
+		}
 	}
+	rec.OnWrite(nil)
 	rec.AfterWrite(nil)
 	c.Obs("replies_inside_write", int64(immediate))
 	c.Obs("duplicate_replies_inside_write", int64(dupInside))
